@@ -26,6 +26,10 @@ pub struct TxCfg {
     pub peer_isn: u32,
     /// the socket served an earlier connection (peer MSS 1460, window scale 7) that was reset
     pub reuse: bool,
+    /// the socket has a timestamp generator (RFC 7323 timestamps offered / accepted)
+    pub ts: bool,
+    /// the peer's SYN carries a timestamp option (and so does every later segment of the peer)
+    pub peer_ts: bool,
 }
 
 #[derive(Clone, Debug, PartialEq)]
@@ -52,6 +56,9 @@ pub struct Tx {
     pending: Vec<Viol>,
 }
 
+/// NOP NOP timestamp(tsval 0x01020304, tsecr 0)
+const TS_OPT: [u8; 12] = [1, 1, 8, 10, 1, 2, 3, 4, 0, 0, 0, 0];
+
 fn syn_opts(cfg: &TxCfg) -> Vec<u8> {
     let mut o = vec![];
     if let Some(m) = cfg.peer_mss {
@@ -59,6 +66,9 @@ fn syn_opts(cfg: &TxCfg) -> Vec<u8> {
     }
     if let Some(s) = cfg.peer_ws {
         o.extend_from_slice(&[3, 3, s, 1]);
+    }
+    if cfg.peer_ts {
+        o.extend_from_slice(&TS_OPT);
     }
     o
 }
@@ -108,6 +118,9 @@ impl Harness for Tx {
     type Ev = TxEv;
     fn new(cfg: &TxCfg) -> Tx {
         let mut w = One::with_mtu(cfg.rx, cfg.tx, 0x55, cfg.mtu);
+        if cfg.ts {
+            w.sock().set_tsval_generator(Some(|| 0x0a0b0c0d));
+        }
         let mut t = Tx {
             cfg: cfg.clone(),
             mon: SenderMon::default(),
@@ -155,7 +168,7 @@ impl Harness for Tx {
             t.deliver(build_seg(p, None, wc::TCP_SYN, 1000, &opts, &[]));
             let iss = t.mon.iss.unwrap_or(0);
             t.last_ack = iss.wrapping_add(1);
-            let a = build_seg(p.wrapping_add(1), Some(t.last_ack), 0, 1000, &[], &[]);
+            let a = build_seg(p.wrapping_add(1), Some(t.last_ack), 0, 1000, if cfg.peer_ts { &TS_OPT } else { &[] }, &[]);
             t.acks_sent.push((t.last_ack, 1000));
             t.deliver(a);
         } else {
@@ -206,13 +219,13 @@ impl Harness for Tx {
                 let w = self.win_values()[win as usize];
                 self.last_ack = a;
                 self.acks_sent.push((a, w));
-                let seg = build_seg(self.peer_seq, Some(a), 0, w, &[], &[]);
+                let seg = build_seg(self.peer_seq, Some(a), 0, w, if self.cfg.peer_ts { &TS_OPT } else { &[] }, &[]);
                 self.deliver(seg);
             }
             TxEv::Stale(i) => {
                 let idx = if i == 0 { 0 } else { self.acks_sent.len() - 2 };
                 let (a, w) = self.acks_sent[idx];
-                let seg = build_seg(self.peer_seq, Some(a), 0, w, &[], &[]);
+                let seg = build_seg(self.peer_seq, Some(a), 0, w, if self.cfg.peer_ts { &TS_OPT } else { &[] }, &[]);
                 self.deliver(seg);
             }
             TxEv::AppWrite => {
@@ -265,7 +278,7 @@ impl Harness for Tx {
 pub fn tx_configs(tier: Tier) -> Vec<(TxCfg, usize)> {
     let (mut d, dbig) = if tier == Tier::Quick { (6, 2) } else { (8, 3) };
     if let Ok(x) = std::env::var("TX_D") { d = x.parse().unwrap(); }
-    let base = TxCfg { name: "base", tx: 64, rx: 64, len: 40, chunk: 16, peer_mss: Some(100), peer_ws: None, server: true, mtu: 1500, peer_isn: 0xffff_fff0, reuse: false };
+    let base = TxCfg { name: "base", tx: 64, rx: 64, len: 40, chunk: 16, peer_mss: Some(100), peer_ws: None, server: true, mtu: 1500, peer_isn: 0xffff_fff0, reuse: false, ts: false, peer_ts: false };
     vec![
         (base.clone(), d),
         (TxCfg { name: "mss-absent", peer_mss: None, len: 30, chunk: 30, ..base.clone() }, d),
@@ -278,6 +291,10 @@ pub fn tx_configs(tier: Tier) -> Vec<(TxCfg, usize)> {
         (TxCfg { name: "bigrx-no-peer-ws", rx: 70000, len: 20, chunk: 20, ..base.clone() }, dbig),
         (TxCfg { name: "bigrx-peer-ws0", rx: 70000, len: 20, chunk: 20, peer_ws: Some(0), ..base.clone() }, dbig),
         (TxCfg { name: "bigrx-client-no-peer-ws", rx: 70000, len: 20, chunk: 20, server: false, ..base.clone() }, dbig),
+        // timestamps: 12 octets of options in every segment, which the MTU and MSS limits must absorb
+        (TxCfg { name: "ts-mss-536-mtu-100", ts: true, peer_ts: true, peer_mss: Some(536), tx: 256, len: 200, chunk: 200, mtu: 100, ..base.clone() }, d),
+        (TxCfg { name: "ts-mss-48-client", ts: true, peer_ts: true, peer_mss: Some(48), tx: 128, len: 100, chunk: 100, server: false, ..base.clone() }, d),
+        (TxCfg { name: "ts-offered-peer-without", ts: true, peer_ts: false, peer_mss: Some(536), tx: 256, len: 200, chunk: 200, mtu: 100, ..base.clone() }, d.min(5)),
         // reused socket objects: nothing negotiated on the earlier connection may survive
         (TxCfg { name: "reuse-srv-mss-absent", reuse: true, peer_mss: None, tx: 2048, len: 1300, chunk: 1300, ..base.clone() }, d.min(5)),
         (TxCfg { name: "reuse-cli-mss-0", reuse: true, peer_mss: Some(0), server: false, tx: 2048, len: 1300, chunk: 1300, ..base.clone() }, d.min(5)),
